@@ -241,7 +241,8 @@ func (k *kase) observe() (o obs) {
 	// on disk: the child's working directory is the scratch root, the main file is
 	// named relative to it (as the yaegi command does), GOPATH is absolute
 	if childDir == "" {
-		d, err := os.MkdirTemp("", "c16-child-")
+		// below the parent's scratch directory, which is removed at exit whatever happens to the child
+		d, err := os.MkdirTemp(os.Getenv("C16_SCRATCH"), "c16-child-")
 		if err != nil {
 			o.Disk = run{Err: "mktemp: " + err.Error(), Class: "other"}
 			return o
@@ -635,7 +636,7 @@ func workers(sim bool) int {
 	return 2
 }
 
-type tlcRunner func(name string, b bounds, sim bool, num, depth int, seed int64) error
+type tlcRunner func(name string, b bounds, sim bool, num, depth int, seed int64) ([]kase, error)
 
 func runCheck(c *fw.Ctx) error {
 	c.Rule = "cases generated by Resolve.tla; a case is non-trivial when its load resolves at least two import statements, or one statement whose path is present in several places of the tree; distinct by (tree, main situation and directory, import lists)"
@@ -653,28 +654,25 @@ func runCheck(c *fw.Ctx) error {
 		}
 		return check(c, []kase{k}, 0)
 	}
-	var all []kase
 	var mu sync.Mutex
-	add := func(r json.RawMessage) {
-		var k kase
-		if err := json.Unmarshal(r, &k); err == nil {
-			mu.Lock()
-			all = append(all, k)
-			mu.Unlock()
-		} else {
-			c.SpecError("cannot decode behaviour: %v: %.200s", err, string(r))
-		}
-	}
 	cover := map[string]int64{}
-	runTLC := func(name string, b bounds, sim bool, num, depth int, seed int64) error {
-		n := 0
+	runTLC := func(name string, b bounds, sim bool, num, depth int, seed int64) ([]kase, error) {
+		var mine []kase
 		res, err := c.TLC(fw.TLCOpts{Dir: "spec/env", Module: "Resolve", Cfg: name, Files: map[string][]byte{name: b.cfg()}, Simulate: sim,
-			Num: num, Depth: depth, Seed: seed, OnBeh: func(r json.RawMessage) { n++; add(r) }, Timeout: 9 * time.Minute, Coverage: os.Getenv("C16_COVER") != "", HeapMB: 1500, Workers: workers(sim)})
+			Num: num, Depth: depth, Seed: seed, Timeout: 9 * time.Minute, Coverage: os.Getenv("C16_COVER") != "", HeapMB: 1500, Workers: workers(sim),
+			OnBeh: func(r json.RawMessage) {
+				var k kase
+				if err := json.Unmarshal(r, &k); err == nil {
+					mine = append(mine, k)
+				} else {
+					c.SpecError("cannot decode behaviour: %v: %.200s", err, string(r))
+				}
+			}})
 		if err != nil {
-			return err
+			return nil, err
 		}
 		if res.Violated != "" {
-			return fmt.Errorf("model-level property violated in %s: %s\n%s", name, res.Violated, tail(res.Output, 3000))
+			return nil, fmt.Errorf("model-level property violated in %s: %s\n%s", name, res.Violated, tail(res.Output, 3000))
 		}
 		mu.Lock()
 		if sim {
@@ -684,24 +682,25 @@ func runCheck(c *fw.Ctx) error {
 		for a, n := range res.Cover {
 			cover[a] += n
 		}
-		fmt.Printf("tlc %-14s %7d behaviours %9d distinct states %6.1fs\n", name, n, res.Distinct, res.Wall.Seconds())
+		fmt.Printf("tlc %-14s %7d behaviours %9d distinct states %6.1fs\n", name, len(mine), res.Distinct, res.Wall.Seconds())
 		mu.Unlock()
-		return nil
+		return mine, nil
 	}
 	if v := os.Getenv("C16_CFG"); v != "" { // development aid
 		var d, p, i, f, m int
 		var fam string
 		fmt.Sscanf(v, "%d,%d,%d,%d,%d,%s", &d, &p, &i, &f, &m, &fam)
 		b := bounds{"Spec", d, p, i, f, bothKinds, m, true, fam, os.Getenv("C16_EXCL") != "", invGen}
-		if err := runTLC("dev.cfg", b, false, 0, 0, 0); err != nil {
+		all, err := runTLC("dev.cfg", b, false, 0, 0, 0)
+		if err != nil {
 			return err
 		}
 		return check(c, all, 0)
 	}
-	return tiers(c, runTLC, &all, cover)
+	return tiers(c, runTLC, cover)
 }
 
-func tiers(c *fw.Ctx, runTLC tlcRunner, all *[]kase, cover map[string]int64) error {
+func tiers(c *fw.Ctx, runTLC tlcRunner, cover map[string]int64) error {
 	type job struct {
 		name       string
 		b          bounds
@@ -734,49 +733,76 @@ func tiers(c *fw.Ctx, runTLC tlcRunner, all *[]kase, cover map[string]int64) err
 		jobs = append(jobs, job{name: fmt.Sprintf("sim%d.cfg", j), sim: true, num: c.Pick(2, 6), depth: 1500, seed: c.Seed*1000 + int64(j),
 			b: bounds{"SpecSim", 4 + j%2, 6, 7, 3, bothKinds, 3, true, "all", true, invGen}})
 	}
-	sem := make(chan struct{}, 4) // at most 4 JVMs (<= 8 worker threads) at a time
-	errs := make([]error, len(jobs))
+	// TLC runs (at most 4 JVMs, <= 8 worker threads at a time) feed one consumer that replays
+	// each run's cases while the next runs are still enumerating
+	sem := make(chan struct{}, 4)
+	type batch struct {
+		name  string
+		cases []kase
+		err   error
+	}
+	batches := make(chan batch, len(jobs))
 	var wg sync.WaitGroup
-	for i, j := range jobs {
+	for _, j := range jobs {
 		wg.Add(1)
-		sem <- struct{}{}
-		go func(i int, j job) {
+		go func(j job) {
 			defer wg.Done()
-			defer func() { <-sem }()
-			errs[i] = runTLC(j.name, j.b, j.sim, j.num, j.depth, j.seed)
-		}(i, j)
+			sem <- struct{}{}
+			cases, err := runTLC(j.name, j.b, j.sim, j.num, j.depth, j.seed)
+			<-sem
+			batches <- batch{j.name, cases, err}
+		}(j)
 	}
-	wg.Wait()
-	for _, e := range errs {
-		if e != nil {
-			return e
-		}
-	}
-	// distinct cases only
+	go func() { wg.Wait(); close(batches) }()
 	seen := map[string]bool{}
-	var uniq []kase
-	pins := 0
-	for _, k := range *all {
-		key := k.key()
-		if seen[key] && k.Pin == 0 {
+	pins, total, distinct := 0, 0, 0
+	quota := c.Pick(24, 400)
+	var firstErr error
+	for b := range batches {
+		if b.err != nil {
+			if firstErr == nil {
+				firstErr = b.err
+			}
 			continue
 		}
-		seen[key] = true
-		if k.Pin != 0 {
-			pins++
+		if firstErr != nil {
+			continue
 		}
-		uniq = append(uniq, k)
+		var uniq []kase
+		for _, k := range b.cases {
+			total++
+			key := k.key()
+			if k.Pin != 0 {
+				pins++
+			} else if seen[key] {
+				continue
+			}
+			seen[key] = true
+			uniq = append(uniq, k)
+		}
+		distinct += len(uniq)
+		// the reference sample is spread over the exhaustive runs
+		n := 0
+		if !strings.HasPrefix(b.name, "sim") && b.name != "pin.cfg" && len(uniq) > 0 {
+			n = quota / 4
+		}
+		if err := check(c, uniq, n); err != nil {
+			return err
+		}
+	}
+	if firstErr != nil {
+		return firstErr
 	}
 	if pins != 5 {
 		return fmt.Errorf("expected 5 pinned witnesses, the specification produced %d", pins)
 	}
-	fmt.Printf("%d behaviours, %d distinct cases\n", len(*all), len(uniq))
+	fmt.Printf("%d behaviours, %d distinct cases\n", total, distinct)
 	c.Exhaustive = false
-	c.Extra["exhaustive_parts"] = "trees*.cfg and graphs.cfg are exhaustive within their bounds (minus the named exclusions); sim*.cfg are seeded"
+	c.Extra["exhaustive_parts"] = "trees2, multi3, triple4 and graphs are exhaustive within their bounds (minus the named exclusions); sim* are seeded"
 	if len(cover) > 0 {
 		c.Extra["tlc_action_coverage"] = cover
 	}
-	return check(c, uniq, c.Pick(24, 400))
+	return nil
 }
 
 var dump = os.Getenv("C16_DUMP") != ""
@@ -792,7 +818,10 @@ func check(c *fw.Ctx, all []kase, nativeSample int) error {
 		jobs = append(jobs, all[i:j])
 	}
 	t0 := time.Now()
-	results := c.RunChildren("c16", jobs, 16, 120*time.Second, nil)
+	results := c.RunChildren("c16", jobs, 16, 120*time.Second, []string{"C16_SCRATCH=" + c.Scratch})
+	if len(all) == 0 {
+		return nil
+	}
 	fmt.Printf("replayed %d cases twice (disk, fs.FS) in %.1fs\n", len(all), time.Since(t0).Seconds())
 	type bad struct {
 		k    *kase
@@ -849,6 +878,9 @@ func check(c *fw.Ctx, all []kase, nativeSample int) error {
 			}
 			bads = append(bads, bad{k: k, o: o, mode: mode})
 		}
+	}
+	if n, ok := c.Extra["order_equals_depth_first_log"].(int); ok {
+		exact += n
 	}
 	c.Extra["order_equals_depth_first_log"] = exact
 	// corroborate every disagreement with the reference before calling it a failure,
@@ -949,6 +981,10 @@ func check(c *fw.Ctx, all []kase, nativeSample int) error {
 		c.Fail(trig, b.mode, rep)
 	}
 	if dump {
+		// audit of the exclusions' width: cases that contain a trigger and conform anyway
+		for _, k := range good {
+			hist["(conforms) "+strings.Join(k.triggers(), " + ")]++
+		}
 		keys := []string{}
 		for h := range hist {
 			keys = append(keys, h)
